@@ -332,6 +332,14 @@ def run(tier):
                                     c["name_ok"] &= W.key(getattr(om, n)) == W.key(getattr(nm, n))
                     else:
                         c["name_ok"] = False
+                    # the copy is the caller's own (round g): assigning, on the copy, to the fields that were NOT named --
+                    # those of members the replacement did not touch -- must not write through to the original members
+                    for n, t in gfields:
+                        if n not in pickg:
+                            try:
+                                setattr(res, n, getattr(donor, n))
+                            except Exception:
+                                pass
                 except Exception as e:
                     c["raised"], c["exc"] = True, type(e).__name__ + ":" + str(e)[:80]
                 c["originals_unchanged"] = before_g == json.dumps([observe.obs_record(x) for x in m], sort_keys=True)
